@@ -6,17 +6,28 @@ from ..gen import cutgen as CG
 
 PID = "C16"
 TITLE = "Cutting along singularities yields a disk with faces in bijection"
-LEAN_MODULES = ["Mouette.Props.C16"]
+LEAN_MODULES = ["Mouette.Props.C16", "Mouette.Props.C16Source"]
 REQUIRED_THEOREMS = ["faces_in_bijection", "ref_vertex_face_by_face", "ref_vertex_onto", "output_vertices_all_used",
                      "corner_positions_preserved", "glued_only_if_linked", "glued_same_vertex", "uncut_edges_glued",
                      "stable_roots", "prune_keeps_singular_core", "prune_subset", "prune_keeps_loops", "faces_nested",
                      "prune_queue_empty", "prune_fixpoint", "prune_fixpoint_run", "vertex_count", "twin_sides_shared",
                      "edge_count_partial", "euler_characteristic_partial", "euler_formula_partial", "euler_iff_vertex_count",
-                     "euler_formula_of_report", "all_unions_effective_of_dual_forest", "euler_characteristic_of_dual_tree_partial"]
+                     "euler_formula_of_report", "all_unions_effective_of_dual_forest", "euler_characteristic_of_dual_tree_partial",
+                     # round 4: bridges to the fragments translated from cutting.py on every run (Props/C16Source.lean)
+                     "build_cut_edges_tree_source", "prune_source", "run_source", "run_stages_source", "corner_loop_source", "union_loop_source",
+                     "imap_loop_source", "build_source", "cut_adj_is_adjacency_source", "prune_only_removes_source",
+                     "prune_keeps_loops_source", "prune_keeps_singular_core_source", "prune_fixpoint_source",
+                     # round 4, part B: the edge hypotheses hR / hdisj of the Euler count are theorems
+                     "no_corner_starts_two_glued_sides", "euler_characteristic_of_dual_tree_partial2", "euler_formula_partial2",
+                     "uncut_pairs_distinct_source", "euler_characteristic_of_dual_tree_source_partial"]
 TRUSTED = [
     "Lean 4.33.0 kernel; axioms ⊆ {propext, Classical.choice, Quot.sound}",
     "hand-written model Mouette/Model/Cutting.lean (_build_cut_edges_tree, _prune_edge_tree, _build_mesh_with_cuts over the C20 "
-    "union-find model) tied to mouette/processing/cutting.py by the correspondence of this run",
+    "union-find model) tied to mouette/processing/cutting.py by the correspondence of this run AND (round 4) by refinement theorems "
+    "from the definitions re-translated from the source on every run (Generated/C16Cut.lean: _build_cut_edges_tree, _prune_edge_tree, "
+    "run/_run_no_features/_run_with_features, three loops of _build_mesh_with_cuts); vocabulary of the translation (meaning of "
+    "set/dict/deque operations, edge_id, direct_face): Model/CutSource.lean; the find / order_verts / ref_vertex stages of "
+    "_build_mesh_with_cuts stay hand-modelled",
     "the stages before the cut graph (shortest paths, Kruskal over paths, dual Dijkstra, feature regions) are NOT modelled: "
     "their result `evisited` is observed on the implementation and handed to the model",
     "tree-cotree theorem (the cut surface is a disk) is NOT proved: checked per run by vlib/gen/mesh.py: surface_stats on output_mesh",
@@ -524,6 +535,64 @@ def search_on_break(rng, broken, mismatches):
     return out
 
 
+# ------------------------------------------------------------------------------------------------
+# translated fragments (round 4): cutting.py is read imperatively into Generated/C16Cut.lean on every run
+# ------------------------------------------------------------------------------------------------
+def translate():
+    from ..gen import c16_translate
+    return c16_translate.sites()
+
+
+_CUT = "mouette/processing/cutting.py::SingularityCutter."
+_OOS_UF = "modelled"   # mouette/utils/unionfind.py is translated and bridged under C20 (Props/C20Source); C16 uses the hand model UF
+SOURCE_MAP = {
+    _CUT + "__init__": "oracle-only",
+    _CUT + "has_features": "oracle-only",
+    _CUT + "output_mesh": "oracle-only",
+    _CUT + "cut_graph": "oracle-only",
+    _CUT + "run": "translated",
+    _CUT + "_run_with_features": "translated",
+    _CUT + "_run_no_features": "translated",
+    _CUT + "_build_singularity_spanning_tree_no_features": "oracle-only",
+    _CUT + "_build_singularity_spanning_tree_no_features.compute_path_length": "oracle-only",
+    _CUT + "_build_singularity_spanning_tree_with_features": "oracle-only",
+    _CUT + "_build_feature_regions": "oracle-only",
+    _CUT + "_build_dual_tree_no_features": "oracle-only",
+    _CUT + "_build_dual_tree_no_features.face_distance": "oracle-only",
+    _CUT + "_build_dual_tree_with_features": "oracle-only",
+    _CUT + "_build_dual_tree_with_features.face_distance": "oracle-only",
+    _CUT + "_build_cut_edges_tree": "translated",
+    _CUT + "_prune_edge_tree": "translated",
+    _CUT + "_build_cut_graph_as_mesh": "oracle-only",
+    _CUT + "_build_mesh_with_cuts": "translated: corner numbering, union loop and imap loop (bridged by build_source); the find / order_verts / ref_vertex stages are hand-modelled",
+    "mouette/processing/paths.py::build_path": "oracle-only",
+    "mouette/processing/paths.py::_check_weight_argument": "oracle-only",
+    "mouette/processing/paths.py::shortest_path": "oracle-only",
+    "mouette/processing/paths.py::shortest_path_to_vertex_set": "oracle-only",
+    "mouette/processing/paths.py::shortest_path_to_border": "oracle-only",
+    "mouette/processing/trees/face_sp.py::FaceSpanningTree.__init__": "oracle-only",
+    "mouette/processing/trees/face_sp.py::FaceSpanningTree.compute": "oracle-only",
+    "mouette/processing/trees/face_sp.py::FaceSpanningTree.compute.put_neighbours_in_queue": "oracle-only",
+    "mouette/processing/trees/face_sp.py::FaceSpanningTree.build_tree_as_polyline": "out-of-scope: debug export, not reached by SingularityCutter",
+    "mouette/processing/trees/face_sp.py::FaceSpanningForest.__init__": "oracle-only",
+    "mouette/processing/trees/face_sp.py::FaceSpanningForest.compute": "oracle-only",
+    "mouette/utils/unionfind.py::UnionFind.__init__": "modelled",
+    "mouette/utils/unionfind.py::UnionFind.__repr__": "out-of-scope: not reached by SingularityCutter",
+    "mouette/utils/unionfind.py::UnionFind.__len__": "out-of-scope: not reached by SingularityCutter",
+    "mouette/utils/unionfind.py::UnionFind.__contains__": "modelled",
+    "mouette/utils/unionfind.py::UnionFind.__getitem__": "out-of-scope: not reached by SingularityCutter",
+    "mouette/utils/unionfind.py::UnionFind.__setitem__": "out-of-scope: not reached by SingularityCutter",
+    "mouette/utils/unionfind.py::UnionFind.add": "modelled",
+    "mouette/utils/unionfind.py::UnionFind.find": "modelled",
+    "mouette/utils/unionfind.py::UnionFind.connected": "oracle-only",
+    "mouette/utils/unionfind.py::UnionFind.union": "modelled",
+    "mouette/utils/unionfind.py::UnionFind.component": "out-of-scope: not reached by SingularityCutter",
+    "mouette/utils/unionfind.py::UnionFind.roots": "out-of-scope: not reached by SingularityCutter",
+    "mouette/utils/unionfind.py::UnionFind.components": "out-of-scope: not reached by SingularityCutter",
+    "mouette/utils/unionfind.py::UnionFind.component_mapping": "out-of-scope: not reached by SingularityCutter",
+}
+
+
 MANIFEST = {
     "level_text": ("Proof, PARTIAL. Lean 4 theorems about an executable model of SingularityCutter._prune_edge_tree and "
                    "_build_mesh_with_cuts (one vertex per corner, the C20 union-find model, compaction, ref_vertex), for ALL triangle "
@@ -540,8 +609,15 @@ MANIFEST = {
                    "(explicit hypotheses sep/hR/hdisj) THEN E' = 3F - |uncut| (edge_count_partial) and chi = F + |uncut| - effective unions "
                    "(euler_formula_partial); with |uncut| = F-1, chi = 1 is EQUIVALENT to 'all 2|uncut| corner unions are effective', i.e. "
                    "V' = F+2 (euler_iff_vertex_count, euler_characteristic_partial), and that is PROVED from a dual forest/spanning tree of "
-                   "the uncut edges (all_unions_effective_of_dual_forest, euler_characteristic_of_dual_tree_partial); the edge hypotheses "
-                   "stay (decided per run by the driver). The property is also checked on histories (cutter run twice, a second cutter on a "
+                   "the uncut edges (all_unions_effective_of_dual_forest, euler_characteristic_of_dual_tree_partial); of the three edge "
+                   "hypotheses, hR and hdisj (no corner starts two glued sides) are now PROVED from the uncut edges being distinct undirected edges "
+                   "(no_corner_starts_two_glued_sides; for a simple edge table: uncut_pairs_distinct_source), only `sep` (sides of the output "
+                   "coincide only when glued) stays (decided per run by the driver). ROUND 4 - TIE: _build_cut_edges_tree, _prune_edge_tree, run / "
+                   "_run_no_features / _run_with_features and three loops of _build_mesh_with_cuts are re-translated IMPERATIVELY from cutting.py on "
+                   "every run (explicit dict cut_adj, remove / add / = set(), edge_id, deque, while on fuel) and proved to REFINE the hand model "
+                   "(build_cut_edges_tree_source, prune_source, run_source, run_stages_source, corner_loop_source, union_loop_source, imap_loop_source, "
+                   "build_source); the pruning theorems are restated on the extracted definitions (cut_adj_is_adjacency_source, "
+                   "prune_only_removes_source, prune_keeps_loops_source, prune_keeps_singular_core_source, prune_fixpoint_source). The property is also checked on histories (cutter run twice, a second cutter on a "
                    "used mesh, accessors in every order, detector run twice) and on every representation of the singularity set (list, "
                    "tuple, set, int64/int32 ndarray, numpy scalars, vertex attribute), with by-value snapshots. NOT proved - checked on every run by the oracle with an independent routine "
                    "(surface_stats): the cut mesh is ONE component with ONE border loop and Euler characteristic 1 (tree-cotree theorem), "
